@@ -5649,7 +5649,10 @@ int32_t matrixSslEncodeClientHello(ssl_t *ssl, sslBuf_t *out,
         if (ssl->haveCookie)
         {
             *c = (unsigned char) ssl->cookieLen; c++;
-            Memcpy(c, ssl->cookie, ssl->cookieLen);
+            if (ssl->cookieLen > 0)
+            {
+                Memcpy(c, ssl->cookie, ssl->cookieLen);
+            }
             c += ssl->cookieLen;
         }
         else
